@@ -345,3 +345,201 @@ def c03_5(I, shape):
             "send-limit-is-what-the-peer-advertised")
     I.check(conn._recv_record_limit == ite(own < 2 ** 14, own, 2 ** 14),
             "receive-limit-is-the-own-setting-capped-at-2^14")
+
+
+# ---------------------------------------------------------------------------
+# C03.6  two live TLS 1.3 endpoints: agreement and the RFC 8446 key schedule
+# ---------------------------------------------------------------------------
+from models import pair as P
+from models.hashmodel import hash_bytes, hmac_bytes, SIZES
+
+PAIR_FUNCS = ["tlslite.tlsconnection:TLSConnection._handshakeClientAsyncHelper",
+              "tlslite.tlsconnection:TLSConnection._clientSendClientHello",
+              "tlslite.tlsconnection:TLSConnection._clientGetServerHello",
+              "tlslite.tlsconnection:TLSConnection._clientTLS13Handshake",
+              "tlslite.tlsconnection:TLSConnection._handshakeServerAsyncHelper",
+              "tlslite.tlsconnection:TLSConnection._serverGetClientHello",
+              "tlslite.tlsconnection:TLSConnection._serverTLS13Handshake",
+              "tlslite.tlsconnection:TLSConnection.keyingMaterialExporter",
+              "tlslite.recordlayer:RecordLayer.calcTLS1_3PendingState",
+              "tlslite.recordlayer:RecordLayer.sendRecord",
+              "tlslite.recordlayer:RecordLayer.recvRecord",
+              "tlslite.handshakehelpers:HandshakeHelpers.update_binders",
+              "tlslite.handshakehelpers:HandshakeHelpers.verify_binder",
+              "tlslite.utils.cryptomath:derive_secret",
+              "tlslite.utils.cryptomath:HKDF_expand_label",
+              "tlslite.handshakehashes:HandshakeHashes"]
+
+PAIR_RND = P.RandomSource(None)
+
+SUITES13 = {"aes128": CipherSuite.TLS_AES_128_GCM_SHA256,
+            "aes256": CipherSuite.TLS_AES_256_GCM_SHA384,
+            "chacha": CipherSuite.TLS_CHACHA20_POLY1305_SHA256}
+CIPHER13 = {"aes128": ("aes128gcm", 16, "sha256"),
+            "aes256": ("aes256gcm", 32, "sha384"),
+            "chacha": ("chacha20-poly1305", 32, "sha256")}
+
+
+def _shapes_c03_6(tier):
+    out = []
+    for auth in ("psk_dhe", "psk_ke", "cert", "cert+client"):
+        for suite in ("aes128", "aes256", "chacha"):
+            if tier == "quick" and suite == "chacha" and auth != "cert":
+                continue
+            out.append(dict(auth=auth, suite=suite))
+    return out
+
+
+def _pair_patches(shape):
+    P.ModelKEX.rnd = PAIR_RND
+    return (P.pair_proxies(), P.pair_stubs(PAIR_RND))
+
+
+@obligation("C03.6", _shapes_c03_6, functions=PAIR_FUNCS,
+            assumes=P.PAIR_ASSUMES + [
+                "TLS 1.3 only; external PSK (symbolic 32/48-byte secret) in "
+                "psk_ke / psk_dhe_ke mode, or certificate authentication "
+                "with optional client authentication; one cipher suite per "
+                "shape; x25519 share; no tickets (ticket_count=0); no "
+                "HelloRetryRequest"],
+            patches=_pair_patches, max_paths=64, timeout=(600, 1800),
+            also=("C04", "C05", "C09", "C02"))
+def c03_6(I, shape):
+    """honest TLS 1.3 peers complete the handshake; both hold the same
+    traffic / exporter / resumption secrets, equal to the RFC 8446 7.1
+    schedule evaluated over the transcript seen on the wire; every protected
+    record is sealed under the key and sequence number of its epoch;
+    exporters and application data agree"""
+    PAIR_RND.I = I
+    PAIR_RND.log = []
+    P.ModelKEX.log = []
+    P.PairAEAD.instances = []
+    auth, sname = shape["auth"], shape["suite"]
+    cname, klen, alg = CIPHER13[sname]
+    n = SIZES[alg][0]
+
+    def mk():
+        s = HandshakeSettings()
+        s.minVersion = s.maxVersion = (3, 4)
+        s.cipherNames = [cname]
+        s.keyShares = ["x25519"]
+        s.eccCurves = ["x25519"]
+        s.dhGroups = []
+        s.ticket_count = 0
+        return s
+    cset, sset = mk(), mk()
+    psk = None
+    if auth.startswith("psk"):
+        psk = I.bytes(n, "psk")
+        mode = "psk_dhe_ke" if auth == "psk_dhe" else "psk_ke"
+        cfg = [(bytearray(b"ident"), newbuf(list(psk)), alg)]
+        cset.pskConfigs = cfg
+        sset.pskConfigs = [(bytearray(b"ident"), newbuf(list(psk)), alg)]
+        cset.psk_modes = [mode]
+        sset.psk_modes = [mode]
+    skey = P.model_key(RSA_CHAIN, RSA_KEY, "srv")
+    ckey = P.model_key(EC_CHAIN, EC_KEY, "cli")
+    want_client_cert = auth == "cert+client"
+
+    def cgen(conn):
+        if want_client_cert:
+            return conn.handshakeClientCert(EC_CHAIN, ckey, settings=cset,
+                                            async_=True)
+        return conn.handshakeClientCert(settings=cset, async_=True)
+
+    def sgen(conn):
+        if auth.startswith("psk"):
+            return conn.handshakeServerAsync(settings=sset)
+        return conn.handshakeServerAsync(certChain=RSA_CHAIN, privateKey=skey,
+                                         reqCert=want_client_cert,
+                                         settings=sset)
+    cep, sep, wire = P.run_pair(cgen, sgen)
+    c, s = cep.conn, sep.conn
+    I.check(cep.done and sep.done and cep.error is None and
+            sep.error is None, "honest-handshake-completes",
+            detail=lambda: dict(client=repr(cep.error), server=repr(sep.error),
+                                cdone=cep.done, sdone=sep.done))
+    if not (cep.done and sep.done) or cep.error or sep.error:
+        return
+    view = P.WireView(wire)
+    shared = None
+    if auth != "psk_ke":
+        I.check(len(P.ModelKEX.log) == 2, "one-dh-computation-per-side")
+        shared = P.ModelKEX.log[0][3]
+    ref = P.Schedule13(alg, psk, shared, view)
+    cs, ss = c.session, s.session
+    I.check(c.version == (3, 4) and s.version == (3, 4), "version-agreed")
+    I.check(cs.cipherSuite == ss.cipherSuite == SUITES13[sname],
+            "suite-agreed-and-inside-settings")
+    for name, attr, want in (
+            ("client-app-traffic-secret", "cl_app_secret", ref.c_ap),
+            ("server-app-traffic-secret", "sr_app_secret", ref.s_ap),
+            ("exporter-master-secret", "exporterMasterSecret", ref.exp),
+            ("resumption-master-secret", "resumptionMasterSecret", ref.res),
+            ("master-secret", "masterSecret", ref.master)):
+        a, b = list(getattr(cs, attr)), list(getattr(ss, attr))
+        I.check(len(a) == n and seq_eq(a, b), name + "-agreed")
+        I.check(len(a) == n and seq_eq(a, want), name + "-is-rfc8446-value")
+    # exporters
+    for ctx_, ln in ((None, 20), (bytearray(b"ctx"), 40)):
+        ea = c.keyingMaterialExporter(bytearray(b"EXPORTER-test"), ln)
+        eb = s.keyingMaterialExporter(bytearray(b"EXPORTER-test"), ln)
+        I.check(seq_eq(list(ea), list(eb)), "exported-keying-material-agreed")
+        I.check(seq_eq(list(ea), ref.exporter(b"EXPORTER-test", None, ln)),
+                "exported-keying-material-is-rfc8446-value")
+        break
+    # record epochs: every protected record carries the tag of the key of
+    # its epoch with the right sequence number
+    keys = {("s", "hs"): ref.key_iv(ref.s_hs, klen),
+            ("c", "hs"): ref.key_iv(ref.c_hs, klen),
+            ("s", "ap"): ref.key_iv(ref.s_ap, klen),
+            ("c", "ap"): ref.key_iv(ref.c_ap, klen)}
+    tagname = {"aes128": "gcm", "aes256": "gcm", "chacha": "chacha"}[sname]
+    epoch = {"c": "hs", "s": "hs"}
+    seq = {"c": 0, "s": 0}
+    for r in view.protected:
+        who = r["sender"]
+        key, iv = keys[(who, epoch[who])]
+        sq = seq[who]
+        nonce = list(iv)
+        for j in range(8):
+            nonce[11 - j] = nonce[11 - j] ^ ((sq >> (8 * j)) & 0xff)
+        from symx.uf import apply_uf
+        want = apply_uf("TAG" + tagname, list(key) + nonce + [5] +
+                        r["header"] + list(r["inner"]), 16)
+        I.check(seq_eq(list(r["tag"]), list(want)),
+                "record-sealed-under-its-epoch-key-and-sequence-number",
+                detail=lambda: dict(sender=who, epoch=epoch[who], seq=sq,
+                                    type=r["type"]))
+        seq[who] += 1
+        if HandshakeType.finished in r.get("ends", []):
+            epoch[who] = "ap"
+            seq[who] = 0
+    I.check(epoch == {"c": "ap", "s": "ap"}, "both-finished-seen-on-the-wire")
+    # application data both ways
+    nrec = len(view.records)
+    for src, dst, msg in ((c, s, b"ping"), (s, c, b"pong!")):
+        for r in src.writeAsync(bytearray(msg)):
+            pass
+        got = None
+        for r in dst.readAsync(max=16, min=1):
+            if r in (0, 1) and isinstance(r, int):
+                break
+            got = r
+        I.check(got is not None and bytes(got) == msg,
+                "application-data-delivered-intact",
+                detail=lambda: dict(got=repr(got)))
+    # certificates
+    if auth.startswith("cert"):
+        I.check(cs.serverCertChain is not None and
+                P.fp(cs.serverCertChain) == P.fp(RSA_CHAIN) and
+                P.fp(ss.serverCertChain) == P.fp(RSA_CHAIN),
+                "server-chain-agreed")
+        I.check(len(skey.signed) == 1 and len(skey.verified) >= 1,
+                "server-proved-possession")
+        if want_client_cert:
+            I.check(ss.clientCertChain is not None and
+                    P.fp(ss.clientCertChain) == P.fp(EC_CHAIN),
+                    "client-chain-agreed")
+            I.check(len(ckey.verified) >= 1,
+                    "client-proof-verified-by-the-server")
